@@ -66,6 +66,34 @@ func loadProgram(repo string, goarch string) (*Program, error) {
 	if err != nil {
 		return nil, fmt.Errorf("load: %w", err)
 	}
+	// one normalisation (normalize.go): a request-loop body outlined into a helper is inlined back
+	normaliseNote = ""
+	{
+		byPath := map[string]*packages.Package{}
+		packages.Visit(pkgs, nil, func(pk *packages.Package) { byPath[pk.PkgPath] = pk })
+		if plan := findOutlinedLoopBody(byPath); plan != nil {
+			if plan.Why != "" {
+				normaliseNote = plan.Why
+			} else {
+				failed := ""
+				cfg2 := *cfg
+				cfg2.ParseFile = normalisingParseFile(plan, &failed)
+				pkgs2, err2 := packages.Load(&cfg2, "./...")
+				nerr := 0
+				if err2 == nil {
+					packages.Visit(pkgs2, nil, func(pk *packages.Package) { nerr += len(pk.Errors) })
+				}
+				switch {
+				case err2 != nil || nerr > 0 || failed != "":
+					normaliseNote = fmt.Sprintf("the loop body helper %s could not be inlined (%s; %d errors): analysed as written", plan.Callee, failed, nerr)
+				default:
+					pkgs = pkgs2
+					normaliseNote = fmt.Sprintf("the request-loop body helper %s was inlined into %s before the analysis (normalize.go)", plan.Callee, plan.Caller)
+				}
+			}
+			debugNormalise("%s", normaliseNote)
+		}
+	}
 	p := &Program{Repo: repo, AllPkgs: map[string]*packages.Package{}, SSAPkgs: map[string]*ssa.Package{}, GOARCH: goarch}
 	var errs []string
 	packages.Visit(pkgs, nil, func(pk *packages.Package) {
